@@ -595,4 +595,13 @@ theorem length_eraseAll (t : Tbl σ) : ∀ (ids : List Nat), WF t → ids.Nodup 
       simp only [List.length_cons]
       omega
 
+theorem agree_self (now : Nat) (t : Tbl σ) : Agree now t (fun i => get t i) := fun _ => rfl
+
+theorem absRes_ok_iff (g now : Nat) (r : Res σ) : absRes g now r = .ok ↔ r = .ok := by
+  cases r with
+  | loaded o => cases o with
+    | none => simp [absRes]
+    | some x => obtain ⟨a, b⟩ := x; simp [absRes]
+  | _ => simp [absRes]
+
 end Pxv.Store
